@@ -4,6 +4,8 @@ use std::{
 };
 
 use regex::Regex;
+use std::ffi::{OsStr, OsString};
+use std::os::unix::ffi::OsStrExt;
 
 use crate::{errors::{Result, XcpError}, config::{Config, Backup}};
 
@@ -50,11 +52,10 @@ fn ls_file_dir(file: &Path) -> Result<ReadDir> {
     Ok(ls_dir)
 }
 
-fn filename(path: &Path) -> Result<String> {
+fn filename(path: &Path) -> Result<OsString> {
     let fname = path.file_name()
-        .ok_or(XcpError::InvalidArguments(format!("Invalid path found: {:?}", path)))?
-        .to_string_lossy();
-    Ok(fname.to_string())
+        .ok_or(XcpError::InvalidArguments(format!("Invalid path found: {:?}", path)))?;
+    Ok(fname.to_os_string())
 }
 
 fn has_backup(file: &Path) -> Result<bool> {
@@ -74,21 +75,22 @@ fn next_backup_num(file: &Path) -> Result<u64> {
         .filter_map(|der| is_num_backup(&fname, &der.ok()?.path()))
         .max()
         .unwrap_or(0);
-    Ok(current + 1)
+    current.checked_add(1)
+        .ok_or(XcpError::InvalidArguments(format!("Backup number overflow for {:?}", file)).into())
 }
 
-fn is_num_backup(base_file: &str, candidate: &Path) -> Option<u64> {
+fn is_num_backup<S: AsRef<OsStr>>(base_file: S, candidate: &Path) -> Option<u64> {
+    // A backup of `name` is exactly `name.~N~`; compare raw bytes so
+    // that non-UTF-8 names are handled.
     let cname = candidate
         .file_name()?
-        .to_str()?;
-    if !cname.starts_with(base_file) {
-        return None
-    }
-    let ext = candidate
-        .extension()?
-        .to_string_lossy();
+        .as_bytes();
+    let ext = cname
+        .strip_prefix(base_file.as_ref().as_bytes())?
+        .strip_prefix(b".")?;
+    let ext = std::str::from_utf8(ext).ok()?;
     let num = get_regex()
-        .captures(&ext)?
+        .captures(ext)?
         .get(1)?
         .as_str()
         .parse::<u64>()
